@@ -162,3 +162,30 @@ func devInflate(pool *sup.Pool, args []string) int {
 }
 
 func init() { devCmds["inflate"] = devInflate }
+
+// devAlpha: parse generated programs whose bound names use every initial letter; print the
+// first one the parser rejects (development aid).
+func devAlpha(pool *sup.Pool, args []string) int {
+	n, _ := strconv.Atoi(args[0])
+	var jobs []sup.Job
+	for i := 0; i < n; i++ {
+		o := polOpt(i)
+		o.Pol, o.Alpha = 40, 60
+		p, _, _ := gen.Generate(int64(5000+i), o)
+		jobs = append(jobs, sup.Job{Kind: "parse", Text: p.Text()})
+	}
+	bad := 0
+	for i, o := range pool.Run(jobs, nil) {
+		if o.Res != nil && !o.Res.ParseOK {
+			bad++
+			if bad == 1 {
+				os.WriteFile("/tmp/alpha_bad.grits", []byte(jobs[i].Text), 0o644)
+				fmt.Println("first rejected program written to /tmp/alpha_bad.grits:", o.Res.ParseErr)
+			}
+		}
+	}
+	fmt.Println(n, "programs,", bad, "rejected by the parser")
+	return 0
+}
+
+func init() { devCmds["alpha"] = devAlpha }
